@@ -31,7 +31,7 @@ BOX = {
 ASSUMPTIONS = ["documented parameter box (empirical, with a 10x margin on every tolerance): " + "; ".join(f"{k}: {v}" for k, v in BOX.items()),
                "spot in [5,500], r in [0,0.1], d in [0,0.06]; strikes inside the middle 40% of COS's own [a,b]"]
 REQUIRED_COUNTERS = ["parity_checks", "bound_checks", "convexity_checks", "digital_checks", "density_checks", "cos_vs_fft",
-                     "cos_vs_blackscholes", "vg_vs_cgmy", "scalar_vs_vector", "price_product_checks"]
+                     "cos_vs_blackscholes", "vg_vs_cgmy", "scalar_vs_vector", "price_product_checks", "closed_form_without_volatility"]
 MIN_NONTRIVIAL = {"quick": 25, "thorough": 250}
 THOROUGH_ROUNDS = 3      # the thorough tier runs the generators this many times (different seeds)
 SHARD_TIMEOUT = {"quick": 900, "thorough": 7200}
@@ -170,6 +170,16 @@ def run_case(case, R):
         judge("bs-parity", np.max(np.abs(bc - bp - np.array([cf.forward(k, T) for k in ks]))) / S, "parity", "closed-form parity", "cos_vs_blackscholes")
         judge("cos-vs-bs-digital", np.max(np.abs(cf.digital(ks, T) - dig)), "cos_bs", "COS digital differs from Black-Scholes", "cos_vs_blackscholes")
         judge("fft-vs-bs", np.max(np.abs(fc - bc)[mid]) / S, "fft_bs", "FFT call differs from Black-Scholes", "cos_vs_blackscholes")
+        # the closed form without volatility (its degenerate branch): deterministic stock, price = df * (F - K)^+ ; and continuity in sigma
+        for sig0 in (0.0, 1e-9):
+            cf0 = W.build_model(dict(spec, params={"sigma": sig0})).closed_form
+            kk = [float(ks[8]), float(ks[20]), float(ks[32])]
+            c0 = np.array([float(cf0.call(k, T)) for k in kk])
+            p0 = np.array([float(cf0.put(k, T)) for k in kk])
+            want_c = df * np.maximum(F - np.array(kk), 0.0)
+            want_p = df * np.maximum(np.array(kk) - F, 0.0)
+            judge("bs-closed-form-without-volatility", max(np.max(np.abs(c0 - want_c)), np.max(np.abs(p0 - want_p))) / S, "parity",
+                  f"closed form with sigma = {sig0} differs from the price of the deterministic stock df (F - K)^+", "closed_form_without_volatility")
     if fam == "VG":
         p = spec["params"]
         s2 = p["sigma"] ** 2
